@@ -109,6 +109,21 @@ def no_raise(fn, *a, **kw):
     return True
 
 
+def warm_cold(prior, query):
+    """hidden-state independence: the value of query() after prior() ran must equal its value in the initial
+    (cold) state of every piece of module/class state the harness knows (vf.ext.discover_state)."""
+    from vf import ext
+
+    ext.ensure_state()
+    ext.reset_state()
+    cold = query()
+    ext.reset_state()
+    prior()
+    warm = query()
+    ext.reset_state()
+    return warm == cold
+
+
 class Claim(object):
     def __init__(
         self,
